@@ -115,6 +115,42 @@ func main() {
 			}
 		}
 	}
+	// family G: bool-returning variadic host functions x how the variadic values are written x where the call stands
+	gcalls := []struct{ name, setup, call string }{
+		{"sum listed", "", "HSumIs(6, 1, 2, 3)"},
+		{"sum listed-false", "", "HSumIs(7, 1, 2, 3)"},
+		{"sum spread-var", "xs := []int{1, 2, 3}", "HSumIs(6, xs...)"},
+		{"sum spread-var-false", "xs := []int{1, 2, 3}", "HSumIs(5, xs...)"},
+		{"sum spread-literal", "", "HSumIs(3, []int{1, 2}...)"},
+		{"sum spread-call", "mk := func() []int { return []int{4, 5} }", "HSumIs(9, mk()...)"},
+		{"sum spread-nil", "var xs []int", "HSumIs(0, xs...)"},
+		{"sum none", "", "HSumIs(0)"},
+		{"count listed", "", "HCountIs(3, 1, \"a\", 2.5)"},
+		{"count spread-var", "ys := []interface{}{1, \"a\", 2.5}", "HCountIs(3, ys...)"},
+		{"count spread-var-false", "ys := []interface{}{1, \"a\", 2.5}", "HCountIs(1, ys...)"},
+		{"count slice-as-one", "ys := []interface{}{1, \"a\"}", "HCountIs(1, ys)"},
+		{"count spread-empty", "ys := []interface{}{}", "HCountIs(0, ys...)"},
+		{"str spread", "ss := []interface{}{\"p\", \"q\"}", "HVar(ss...) == \"Var 2 string|p string|q\""},
+	}
+	gstmts := []struct{ name, tmpl string }{
+		{"if", "if CALL {\nShow(\"T\")\n} else {\nShow(\"F\")\n}"},
+		{"ifnot", "if !CALL {\nShow(\"notT\")\n} else {\nShow(\"notF\")\n}"},
+		{"for", "for n := 0; CALL && n < 2; n++ {\nShow(\"loop\", n)\n}\nShow(\"done\")"},
+		{"forcond", "n := 0\nfor CALL {\nn++\nif n > 1 {\nbreak\n}\n}\nShow(\"n\", n)"},
+		{"assign", "ok := CALL\nShow(ok)"},
+		{"return", "Show(func() bool { return CALL }())"},
+		{"and", "t := true\nif t && CALL {\nShow(\"T\")\n} else {\nShow(\"F\")\n}"},
+		{"or", "f := false\nif f || CALL {\nShow(\"T\")\n} else {\nShow(\"F\")\n}"},
+		{"switch", "switch {\ncase CALL:\nShow(\"T\")\ndefault:\nShow(\"F\")\n}"},
+		{"show", "Show(CALL)"},
+		{"defer", "func() {\ndefer func() { Show(CALL) }()\n}()"},
+	}
+	for _, c := range gcalls {
+		for _, st := range gstmts {
+			text := "package main\n\nimport . \"verif/engine/twin/h\"\n\nfunc main() {\n" + c.setup + "\n" + strings.ReplaceAll(st.tmpl, "CALL", c.call) + "\n}\n"
+			progs = append(progs, emit.Src{Name: fmt.Sprintf("G call=%s stmt=%s", c.name, st.name), Text: text})
+		}
+	}
 	res, err := emit.Package(emit.Root()+"/gen/c07cases", "c07cases", progs, 32)
 	if err != nil {
 		fmt.Fprintln(os.Stderr, "HARNESS-ERROR:", err)
